@@ -166,6 +166,25 @@ PROPS = {
              "anything computed by DuckDB date functions (time_agg, datediff, dateadd, getmonth).",
         note="Known findings: the SQL limits are the constants 52/365 (demonstrated collisions at week 53 / day 366). DuckDB's integer "
              "semantics (// truncates, % keeps the dividend's sign) is an external fact encoded in the evaluator."),
+
+    "C19": dict(
+        claimed=True, design="§3 C19",
+        technique="decision table of the CREATE TABLE builder; CFG ordering/must-pass rules in post-load validation; regular-language inclusion (regex -> NFA -> product search with shortest witnesses) between load regexes and the language of real periods; docs tables vs loader accept-language through the parsed normalisation macro",
+        text="Decides the structural half of input rejection: NOT NULL constraints are emitted exactly for identifiers and non-nullable "
+             "components; Time_Period values are normalised before duplicate/single-row/format checks, which lie on every path of every "
+             "loader; the load regex admits only real periods (language inclusion with witnesses) and interval order is checked; every "
+             "documented format and example is accepted. Automata decide these for ALL strings, which no generated table can.",
+        note="Does not decide what DuckDB's own CAST accepts for Integer/Number/Boolean/Date text. Ten known findings (out-of-range "
+             "periods accepted, reversed intervals accepted, documented Time forms rejected, three wrong documented examples)."),
+    "C21": dict(
+        claimed=True, design="§3 C21",
+        technique="table agreement across five code sites + docs; Python renderers lowered by the finite decision-table evaluator and SQL macros evaluated from their parsed text on every (indicator, period number, leap/common year); round trip through the parsed normalisation macro and the load regex",
+        text="Decides that the four output formats are named consistently everywhere, that Python and SQL render every period of every "
+             "indicator identically (or raise the same VTL error), that every rendered value normalises back to the same canonical, "
+             "accepted period, that documented input spellings normalise to canonical periods, and that no format bypasses the "
+             "representation step. Exhaustive over indicators and period numbers for one leap and one common year.",
+        note="Years other than the two representatives are covered only to the extent the macros are year-independent text operations. "
+             "Known findings: three wrong documented examples. Found and repaired: unmapped 2-1-19-21 (see C32)."),
 }
 
 NA_REASONS = {
